@@ -42,6 +42,8 @@ Judge(e, s0) ==
                            <<"run-outcome " \o e.exc, EnEnd(s0) => e.ok = (s0.pc = "done")>>,
                            <<"keyring-after", e.store = s0.store>>,
                            <<"persisted-skipprofile", e.skip = s0.skip>>,
+                           <<"profile-cache-after", e.cached = s0.cached>>,
+                           <<"configuration-sections-after", e.cfg = s0.cfg>>,
                            <<"dry-run-prints-dummy", s0.run.dry => e.printedpw = Dummy>>,
                            <<"prompt-count", e.prompts = s0.prompts>> >>
      [] OTHER -> << <<"unknown-event", FALSE>> >>)
@@ -55,7 +57,7 @@ Next == /\ l <= Len(Log)
            ELSE IF e.op = "begin" /\ ~Modelled(e.run)
            THEN st' = st /\ live' = FALSE /\ Report(e.id, <<>>)          \* outside the model: unjudged until the next begin
            ELSE IF ~live /\ e.op # "begin"
-           THEN (IF e.op = "end" THEN st' = [st EXCEPT !.store = e.store, !.skip = e.skip] ELSE st' = st) /\ live' = live /\ Report(e.id, <<>>)
+           THEN (IF e.op = "end" THEN st' = [st EXCEPT !.store = e.store, !.skip = e.skip, !.cached = e.cached, !.cfg = e.cfg] ELSE st' = st) /\ live' = live /\ Report(e.id, <<>>)
            ELSE LET s0 == Settle(st) IN
                 /\ Report(e.id, Judge(e, s0))
                 /\ st' = After(e, s0) /\ live' = TRUE
